@@ -51,21 +51,24 @@ def run_part1(item):
     kind, ta, tb, seed = item
     res = _res()
     lens = (0, 1, 2, 3)
-    for chunks in (1, 2, 3):
+    for chunks, big in [(c, b) for c in (1, 2, 3) for b in (False, True)]:
+        if big and chunks == 3:
+            continue   # byte order is C15's subject; here the big-endian encoding of the same square is read as a cross-check
+        be = {'big': True} if big else {}
         if kind == 'single':
             for n in lens:
                 for il in (False, True):
-                    h = [G.seg([(A, full(ta, n))], chunks=chunks, interleaved=il)]
-                    _exec(res, h, seed, {'part': 1, 'type_a': ta, 'type_b': None,
-                                          'layout': 'interleaved' if il else 'contiguous'}, n > 0)
+                    h = [G.seg([(A, full(ta, n))], chunks=chunks, interleaved=il, big=big)]
+                    _exec(res, h, seed, dict({'part': 1, 'type_a': ta, 'type_b': None,
+                                              'layout': 'interleaved' if il else 'contiguous'}, **be), n > 0)
             continue
         for la in lens:
             for lb in lens:
-                h = [G.seg([(A, full(ta, la)), (B, full(tb, lb))], chunks=chunks)]
-                _exec(res, h, seed, {'part': 1, 'type_a': ta, 'type_b': tb, 'layout': 'contiguous'}, la + lb > 0)
+                h = [G.seg([(A, full(ta, la)), (B, full(tb, lb))], chunks=chunks, big=big)]
+                _exec(res, h, seed, dict({'part': 1, 'type_a': ta, 'type_b': tb, 'layout': 'contiguous'}, **be), la + lb > 0)
                 if la == lb and sized(ta) and sized(tb):
-                    h = [G.seg([(A, full(ta, la)), (B, full(tb, lb))], chunks=chunks, interleaved=True)]
-                    _exec(res, h, seed, {'part': 1, 'type_a': ta, 'type_b': tb, 'layout': 'interleaved'}, la > 0)
+                    h = [G.seg([(A, full(ta, la)), (B, full(tb, lb))], chunks=chunks, interleaved=True, big=big)]
+                    _exec(res, h, seed, dict({'part': 1, 'type_a': ta, 'type_b': tb, 'layout': 'interleaved'}, **be), la > 0)
     return res
 
 
